@@ -60,7 +60,11 @@ def run(tier):
            for i in range(40 if tier == "quick" else 600)]
     hs3 = [histgen.add_external_block_ops(rng3, h) if k % 3 == 0 else h for k, h in enumerate(hs3)]
     m3 = run_interleaved(chk, hs3, {"C01"}, label="c01i")
-    chk.distinct = m["execs"] + m2["execs"] + m3["execs"]
+    # a partial (short) write of the operating system is no failure: an output closed normally after one, without any
+    # exception, still reads back as buffered (descriptor outputs, every write system call cut short)
+    from checks.writer_common import run_scenarios, exporter_scenarios
+    m4 = run_scenarios(chk, "c16", exporter_scenarios(rng3, tier, comps=("none",), kinds=("fd",), recover=True), {"C01"}, "c01f")
+    chk.distinct = m["execs"] + m2["execs"] + m3["execs"] + m4["execs"]
     return chk.finish()
 
 
